@@ -22,8 +22,8 @@ from harness import pyast_wire as W
 
 META = {
     "id": "C03",
-    "technique": "Coq proof (soundness of a line-by-line model of _eval_const w.r.t. the reference Python semantics Lang/PySem.v by induction over expressions; closedness of name-free folds; a model of the constant environment with shared list objects, its staleness refuted by computed witnesses and a freshness guard) + extracted-model correspondence with the real _eval_const/_expr_has_name/_to_c_expr/parse() + CPython and compiled-firmware oracles",
-    "level_text": "Theorems C03_* (coq/Props/C03.v) are proved for all expressions / environments about Gallina models of _eval_const, _expr_has_name, _literal_length, the folding call sites and the flow-insensitive constant environment (operator and cast tables regenerated from parser.py on every run); soundness holds inside an explicit guard and is refuted outside it by computed witnesses that are replayed on the real transpiler (listed findings); the models are run against the real functions on generated expressions, environments and programs, and the property itself (folded value = CPython value; firmware observations = CPython observations) is evaluated on the real artefacts for every generated case inside the guard.",
+    "technique": "Coq proof (soundness of a line-by-line model of _eval_const w.r.t. the reference Python semantics Lang/PySem.v by induction over expressions; closedness of name-free folds; a model of the constant environment with shared list objects across if / while / for, its staleness refuted by computed witnesses, and a simulation theorem - residual program with baked-in constants = source program on every control-flow path - inside a freshness guard, by induction over nested statement blocks) + extracted-model correspondence with the real _eval_const/_expr_has_name/_to_c_expr/parse() + CPython and compiled-firmware oracles",
+    "level_text": "Theorems C03_* (coq/Props/C03.v) are proved for all expressions / environments about Gallina models of _eval_const, _expr_has_name, _literal_length, the folding call sites and the flow-insensitive constant environment (len(name), flash_pattern(name), lcd.glyph bitmaps; append / remove bookkeeping; dict copies sharing list objects) (operator and cast tables regenerated from parser.py on every run); soundness holds inside an explicit guard and is refuted outside it by computed witnesses that are replayed on the real transpiler (listed findings); the models are run against the real functions on generated expressions, environments and programs, and the property itself (folded value = CPython value; firmware observations = CPython observations) is evaluated on the real artefacts for every generated case inside the guard.",
     "level_note": "Trusted: Coq kernel, the reference semantics Lang/PySem.v (validated against CPython by harness/pysem_check.py), translator harness/gen/safecasts.py, extraction, OCaml driver, the mock Arduino core + g++ as 'device', CPython 3.12 as 'what Python means'. The theorems are about the models; the correspondence bounds their distance from parser.py. Floats are exact rationals in the model: value comparisons are made only where every intermediate float is a binary64 value (measured per case).",
     "design_ref": "DESIGN.md section 4 C03",
 }
@@ -992,3 +992,8 @@ def run(ctx: C.Ctx):
     })
     ctx.assumptions += ["a script does not rebind len/abs/max/min/int/float/str/bool", "C int does not overflow for the generated magnitudes (values 0..255, lengths < 50)"]
     return ctx
+
+
+def replay(data):
+    from harness.props.c03_replay import replay_c03
+    return replay_c03(data)
